@@ -408,6 +408,49 @@ pub fn run(ctx: &mut Ctx) {
                 h.tile_compression = ((i / 5) % 5) as u8;
                 h.tile_type = (i % 6) as u8;
             }
+            // structured specials: groups of related fields "not set" (zero) or equal, as real writers leave them
+            match i % 16 {
+                1 => {
+                    h.center_zoom = 0;
+                    h.center_lon = 0;
+                    h.center_lat = 0;
+                }
+                2 => {
+                    h.min_lon = 0;
+                    h.min_lat = 0;
+                    h.max_lon = 0;
+                    h.max_lat = 0;
+                }
+                3 => {
+                    h = with_coords(h, [0; 6]);
+                    h.center_zoom = 0;
+                    h.min_zoom = rng.next() as u8;
+                }
+                4 => {
+                    h.min_zoom = 0;
+                    h.max_zoom = 0;
+                    h.center_zoom = 0;
+                }
+                5 => {
+                    h.max_lon = h.min_lon;
+                    h.max_lat = h.min_lat;
+                    h.center_lon = h.min_lon;
+                    h.center_lat = h.min_lat;
+                }
+                6 => {
+                    h.n_addressed = 0;
+                    h.n_entries = 0;
+                    h.n_contents = 0;
+                    h.leaf_offset = 0;
+                    h.leaf_length = 0;
+                }
+                7 => {
+                    h.meta_offset = 0;
+                    h.meta_length = 0;
+                    h.data_length = 0;
+                }
+                _ => {}
+            }
             decode_encode(ctx, &h, true);
             let fp = crate::rng::hash_bytes(&R::header_pack(&h));
             ctx.case(fp, true);
